@@ -249,6 +249,8 @@ example : judgeEv [Out.localsEnd 0 0 0 7] ≠ [] := by decide
 example : judgeEv [Out.scr "scr.push" 4096 4095 4000 0 none] ≠ [] := by decide    -- length byte outside the pad
 example : judgeEv [Out.scr "scr.after" 1 4095 1 0 none] ≠ [] := by decide         -- walked below &scratchblock[2]
 example : judgeEv [Out.scr "scr.after" 5 4095 9 0 none] ≠ [] := by decide         -- last above tail
+example : judgeEv [Out.scrEnd 3 9 0] ≠ [] := by decide                           -- strings left on the pad after the compile
+example : judgeEv [Out.scrEnd 2 2 1] ≠ [] := by decide                           -- malloc'ed block leaked
 -- crash clause
 example : judgeEv [Out.crash "anything"] ≠ [] := by decide
 -- whole-trace clauses
